@@ -59,7 +59,7 @@ func (s *verifQueueStream) drain(n uint64) {
 // error; nothing is left blocked when the network has drained everything.
 // verif:shards=3
 func VerifC16SCTPWrite() {
-	verifnd.Sequential() // the writer runs until it blocks or finishes; the network acts at those points
+	verifnd.Sequential()                  // the writer runs until it blocks or finishes; the network acts at those points
 	ending := verifnd.Choose("ending", 3) // sharded: network drains everything / the connection is closed / both
 	st := &verifQueueStream{}
 	c := newSCTPConn(st, verifNetConn{}, 16)
